@@ -401,6 +401,23 @@ def fallback_guards(chk, F, fn, fk):
             got = None
             if g is not None and g.get("k") == "Unary" and g.get("op") == "Not":
                 got = fields_of(g["a"])
+            if got is None:
+                # the same test written inside the arm: its body starts with `if <written> { return Err(..) }` (or is an
+                # `if <written> { Err(..) } else { <fall-back> }`)
+                b = a["body"]
+                first = None
+                if b.get("k") == "Block":
+                    st = H.stmts_of(b)
+                    first = st[0][1] if st else None
+                    if first is not None and first.get("sk") == "let":
+                        first = None
+                elif b.get("k") == "If":
+                    first = b
+                if first is not None and first.get("k") == "If" and first["cond"].get("k") != "Let":
+                    leaves = any(x.get("k") == "Ret" for x in hir_walk(first["then"])) or \
+                        (first.get("else") is not None and "Result::Err" in H.expr_str(first["then"], 200) and b.get("k") == "If")
+                    if leaves:
+                        got = fields_of(first["cond"])
             missing = sorted(want[half] - (got or set()))
             chk.decide(got is not None and not missing, "literal-fields", fk, "%s-fallback-only-when-absent:%s" % ({"date": "today", "time": "midnight"}[half], ("zone", "offset")[mi]),
                        "%s:%d" % (fn.file, a["line"]),
